@@ -106,6 +106,14 @@ def full_schema(base_schema: JsonSchema, schema: Optional[Schema]) -> JsonSchema
     return base_schema
 
 
+def _is_object_schema(schema: Mapping[str, Any]) -> bool:
+    # an object with flattened fields is itself an allOf of object schemas
+    return schema.get("type") in {JsonType.OBJECT, "object"} or (
+        "allOf" in schema
+        and all("$ref" in sub or _is_object_schema(sub) for sub in schema["allOf"])
+    )
+
+
 Method = TypeVar("Method", bound=Callable)
 
 
@@ -256,7 +264,7 @@ class SchemaBuilder(
                 self.visit_with_conv(field.type, self._field_conversion(field)),
                 field.schema,
             )
-        if object_schema.get("type") not in {JsonType.OBJECT, "object"}:
+        if not _is_object_schema(object_schema):
             field_type = "Flattened" if field.flattened else "Properties"
             raise TypeError(
                 f"{field_type} field {cls.__name__}.{field.name}"
